@@ -10,8 +10,8 @@ import (
 	"verifharness/core"
 	"verifharness/gen"
 	"verifharness/model"
-	"verifharness/types"
 	"verifharness/mon"
+	"verifharness/types"
 )
 
 // C11: no aliasing.
